@@ -7,8 +7,10 @@ import McpModel.Conn.Deadlock
 import McpModel.Conn.Variant
 import McpModel.Conn.Bridge
 import McpModel.Conn.Sound
+import McpModel.SessClose.Props
 import McpModel.Bearer.Props
 import McpModel.KeepAlive.Props
+import McpModel.KeepAlive.CloseProps
 import McpModel.OAuth.Props
 import McpModel.OAuth.Challenge
 import McpModel.Paginate.Props
